@@ -12,9 +12,9 @@ Fixpoint contiguous (cs : list chunk) : Prop :=
 
 Definition all_rows (cs : list chunk) : list row := flat_map crows cs.
 
-Definition stream_start (cs : list chunk) : option Z :=
+Definition first_start (cs : list chunk) : option Z :=
   match cs with [] => None | c :: _ => Some (cstart c) end.
-Definition stream_end (cs : list chunk) : option Z :=
+Definition final_end (cs : list chunk) : option Z :=
   match cs with [] => None | c :: _ => Some (cend (last cs c)) end.
 
 (* the (start, end) pairs of the chunks, and the set of cut points *)
@@ -23,7 +23,7 @@ Definition cut_points (cs : list chunk) : list Z :=
   match cs with [] => [] | c :: _ => cstart c :: map cend cs end.
 
 (* x lies strictly inside a row-free gap: no row contains or touches x *)
-Definition in_gap (rows : list row) (x : Z) : Prop := Forall (fun r => re r < x \/ x < rt r) rows.
+Definition row_free_at (rows : list row) (x : Z) : Prop := Forall (fun r => re r < x \/ x < rt r) rows.
 
 (* same rows, range and run id (data type, kind and target size are stamped by the loader) *)
 Definition same_data (c d : chunk) : Prop :=
@@ -40,8 +40,8 @@ Definition rechunk_spec : Prop :=
     exists cs',
       rechunk_stream cs = Ok cs' /\ cs' <> [] /\ Forall wf cs' /\ contiguous cs' /\
       Forall (fun c => crun c = Some run) cs' /\
-      all_rows cs' = all_rows cs /\ stream_start cs' = stream_start cs /\ stream_end cs' = stream_end cs /\
-      (forall x, In x (cut_points cs') -> In x (cut_points cs) \/ in_gap (all_rows cs) x).
+      all_rows cs' = all_rows cs /\ first_start cs' = first_start cs /\ final_end cs' = final_end cs /\
+      (forall x, In x (cut_points cs') -> In x (cut_points cs) \/ row_free_at (all_rows cs) x).
 
 Definition first_row (rows : list row) : option row := hd_error rows.
 Definition last_row (rows : list row) : option row :=
